@@ -18,12 +18,19 @@ ALL = [f"C{i:02d}" for i in range(1, 21)]
 def sh(cmd, cwd=None, env=None, timeout=1500):
     e = dict(os.environ)
     e.update(env or {})
+    # own session: on a timeout only this command's process group is killed (never another run's checks)
+    import signal
+    p = subprocess.Popen(cmd, shell=True, cwd=cwd, env=e, stdout=subprocess.PIPE, stderr=subprocess.STDOUT, text=True, start_new_session=True)
     try:
-        p = subprocess.run(cmd, shell=True, cwd=cwd, env=e, capture_output=True, text=True, timeout=timeout)
+        out, _ = p.communicate(timeout=timeout)
     except subprocess.TimeoutExpired:
-        subprocess.run("pkill -f 'mc.ru[n] --property' ; true", shell=True)
+        try:
+            os.killpg(p.pid, signal.SIGKILL)
+        except ProcessLookupError:
+            pass
+        p.communicate()
         return 124, "TIMEOUT"
-    return p.returncode, p.stdout + p.stderr
+    return p.returncode, out
 
 
 def main():
